@@ -37,7 +37,16 @@ const exprTag = "expr"
 var loggingOnce sync.Once
 
 // Compile compiles source string.
-func Compile(ctx context.Context, filePath, source string) (rel.Expr, error) {
+func Compile(ctx context.Context, filePath, source string) (_ rel.Expr, err error) {
+	defer func() {
+		if r := recover(); r != nil {
+			if e, is := r.(escapeError); is {
+				err = e
+				return
+			}
+			panic(r)
+		}
+	}()
 	dirpath := "."
 	if filePath != "" {
 		if filePath == NoPath {
@@ -50,7 +59,6 @@ func Compile(ctx context.Context, filePath, source string) (rel.Expr, error) {
 	// bundle run will always get absolute UNIX filePath. This needs to happen
 	// with windows too.
 	if !filepath.IsAbs(filePath) && !isRunningBundle(ctx) {
-		var err error
 		filePath, err = filepath.Rel(".", filePath)
 		if err != nil {
 			return nil, err
